@@ -750,6 +750,26 @@ func (m *Machine) stepThread(th *Thread) {
 	if m.steps > m.maxSteps {
 		panic(pathEnd{"budget", "instruction budget exceeded"})
 	}
+	m.stepDepth++
+	defer func() {
+		m.stepDepth--
+		if r := recover(); r != nil {
+			switch sig := r.(type) {
+			case goPanicSig:
+				m.raise(th, sig.val)
+			case propagateSig:
+				if len(th.frames) > 0 {
+					th.top().unwinding = true
+				}
+			case crashSig:
+				if m.stepDepth > 0 {
+					panic(r)
+				}
+			default:
+				panic(r)
+			}
+		}
+	}()
 	fr := th.top()
 	if fr.unwinding {
 		if len(fr.defers) > 0 {
@@ -785,26 +805,6 @@ func (m *Machine) stepThread(th *Thread) {
 		th.top().unwinding = true
 		return
 	}
-	m.stepDepth++
-	defer func() {
-		m.stepDepth--
-		if r := recover(); r != nil {
-			switch sig := r.(type) {
-			case goPanicSig:
-				m.raise(th, sig.val)
-			case propagateSig:
-				if len(th.frames) > 0 {
-					th.top().unwinding = true
-				}
-			case crashSig:
-				if m.stepDepth > 0 {
-					panic(r)
-				}
-			default:
-				panic(r)
-			}
-		}
-	}()
 	m.exec(th, fr)
 }
 
